@@ -3,8 +3,8 @@
    [Panic] outcome wherever the Go code dereferences a *NumericDate; [handle true] is the tree with the nil
    checks of fixes/F07-nil-claims.patch, [handle false] the tree before it.
    Only statements, each closed by [exact] of a lemma of Proofs/Access_proofs.v / Access_history.v. *)
-From Relay Require Import Base.Prelude Base.AList Model.DenyStore Model.Token Model.Access
-  Proofs.Access_proofs Proofs.Access_history.
+From Relay Require Import Base.Prelude Base.AList Model.DenyStore Model.Token Model.Access Model.Routing
+  Proofs.Access_proofs Proofs.Access_history Proofs.Routing_proofs.
 Local Open Scope string_scope.
 
 (* every request - any route, any query values, any bearer incl. correctly signed ones lacking exp, nbf, iat,
@@ -31,10 +31,24 @@ Print Assumptions C11_success_or_error.
 
 (* success only for a request that is valid in every respect: the endpoint's own validity predicate
    (C01's for /session, C09's for the admin and status endpoints, bound query values in range) *)
-Theorem C11_success_only_if_valid :
-  forall cfg s r, success (snd (handle true cfg s r)) -> valid_request cfg s r.
+Theorem C11_success_only_if_valid_partial :
+  forall cfg s r, success (snd (handle true cfg s r)) -> public_route (r_route r) \/ valid_request cfg s r.
 Proof. exact handle_success_valid. Qed.
-Print Assumptions C11_success_only_if_valid.
+Print Assumptions C11_success_only_if_valid_partial.
+
+(* the full statement "success ONLY for a request that is valid in every respect" is FALSE of the code: three request
+   lines are answered 200 with no token and no operation - go-openapi's documentation middlewares serve
+   /swagger.json (the API description, JSON) and /docs (an HTML page) for any method, and net/http answers
+   OPTIONS * itself.  They read nothing and change nothing (C11_public_resources_touch_nothing) *)
+Theorem C11_success_only_if_valid_refuted :
+  exists l, l_cred l = NoHeader /\ forall cfg s, success (snd (handle true cfg s (req_of l))) /\ ~ valid_request cfg s (req_of l).
+Proof. exists (mkline "DELETE" "/docs" NoHeader None None). split; [reflexivity|]. intros cfg s. split; [cbn; lia|intros H; exact H]. Qed.
+Print Assumptions C11_success_only_if_valid_refuted.
+
+Theorem C11_public_resources_touch_nothing :
+  forall cfg s r, public_route (r_route r) -> fst (handle true cfg s r) = s /\ success (snd (handle true cfg s r)).
+Proof. exact handle_public. Qed.
+Print Assumptions C11_public_resources_touch_nothing.
 
 (* a refused request leaves the whole server state as it was ... *)
 Theorem C11_stateless_failure :
@@ -75,10 +89,51 @@ Print Assumptions C11_bound_exp_is_int64.
 (* "signed or not": no principal, no handler - an error status on every route and nothing changed *)
 Theorem C11_unauthenticated_refused :
   forall cfg s r,
+    ~ public_route (r_route r) ->
     (forall c, validate_header (clock s) (cfg_host cfg) (cfg_secret cfg) (r_cred r) <> Principal c) ->
     refusal (snd (handle true cfg s r)) /\ fst (handle true cfg s r) = s.
 Proof. exact unauthenticated_refused. Qed.
 Print Assumptions C11_unauthenticated_refused.
+
+(* "every request line": the router model (Model/Routing.v) composed with the handlers.  For EVERY method string and
+   EVERY request-target byte string the request is answered, and in exactly one of three ways: an error status with
+   the whole state unchanged (400 from net/http, 404, 405, or a refusal by authenticator / binder / handler); 200 on
+   one of the three public resources with the state unchanged; or success on one of the six operations for a request
+   that is valid in every respect *)
+Theorem C11_every_request_line_answered :
+  forall cfg s l,
+    snd (handle true cfg s (req_of l)) <> Panic /\
+    let r := req_of l in
+    (refusal (snd (handle true cfg s r)) /\ fst (handle true cfg s r) = s) \/
+    (public_route (r_route r) /\ success (snd (handle true cfg s r)) /\ fst (handle true cfg s r) = s) \/
+    (operation (r_route r) /\ success (snd (handle true cfg s r)) /\ valid_request cfg s r).
+Proof. intros cfg s l. split; [apply line_answered|apply line_trichotomy]. Qed.
+Print Assumptions C11_every_request_line_answered.
+
+(* the router is total and has five kinds of outcome *)
+Theorem C11_route_total :
+  forall m t,
+    operation (route_of m t) \/ public_route (route_of m t) \/
+    route_of m t = RNotFound \/ route_of m t = RBadMethod \/ route_of m t = ROpaque.
+Proof. exact route_of_classes. Qed.
+Print Assumptions C11_route_total.
+
+(* a line that is not routed to an operation touches nothing *)
+Theorem C11_unrouted_line_touches_nothing :
+  forall cfg s l, ~ operation (route_of (l_method l) (l_target l)) -> fst (handle true cfg s (req_of l)) = s.
+Proof. exact unrouted_line_frame. Qed.
+Print Assumptions C11_unrouted_line_touches_nothing.
+
+(* 405 is answered exactly where the other method's table knows the cleaned path *)
+Theorem C11_bad_method_only_for_known_paths :
+  forall m t,
+    route_of m t = RBadMethod ->
+    exists raw dec, raw_path_of_target m t = Some raw /\ unescape raw = Some dec /\
+      let esc := escaped_path raw dec in
+      (get_table (clean esc) <> None /\ upper m <> "GET") \/
+      (post_table (clean_segments esc) (clean esc) <> None /\ upper m <> "POST").
+Proof. exact route_bad_method_inv. Qed.
+Print Assumptions C11_bad_method_only_for_known_paths.
 
 (* the fault that F07 removes, kept as a checked record: before the nil checks a correctly signed token
    without exp faulted every endpoint, and one with exp but without iat faulted the session handler after the
